@@ -281,6 +281,18 @@ def run(world, rep, tier, only=None):
         bad = failure_returns(xs, prog, last)
         rep.ob("C15.e", site(xs, "failed array update is returned"), not bad, "%s" % [(b_[0].line, b_[1]) for b_ in bad[:2]])
 
+    # ------------------------------------------------------------------ C15.i slots beyond the count are zero
+    # The array of a handle is reused: the slot at index `count` becomes the scratch entry of the next attribute added,
+    # and that code releases whatever value inode the slot still names.  Removing an entry therefore clears the slot it
+    # vacates on every path - also when the entry removed was the last one and nothing had to be moved.
+    rmv = ea["ext2fs_xattr_remove"]
+    decs_ = [n for n in rmv.events("S") if T.last_field(n.ev["lhs"]) and T.last_field(n.ev["lhs"])[1] == "count" and n.ev.get("o") in ("--", "-=")]
+    clr = [n for n in calls_to(rmv, "memset", "__builtin___memset_chk") if T.const(arg(n, 1)) == 0]
+    rep.floor("C15.i count decrement / slot clearing in ext2fs_xattr_remove", min(len(decs_), len(clr)), 1)
+    for i, n in enumerate(decs_):
+        rep.ob("C15.i", site(rmv, "vacated slot cleared whenever the count goes down#%d" % i), rmv.dominated_by(n, clr),
+               "memset(…, 0, sizeof(entry)) dominates `%s`" % n.text()[:30])
+
     # ------------------------------------------------------------------ C15.h a command that could not do its work says so
     # debugfs ea_set / ea_rm / ea_get end silently when all went well.  When a library call failed (the handle could
     # not be opened, the attributes not read, the value not stored) silence would read as success: on the failing
